@@ -133,4 +133,31 @@ UdiffViol(r) ==
              THEN {} ELSE {"writer_hunks"})
        \* the same bytes reach a sink that accepts only a few bytes per write call
        \cup (IF "out_w_chunk" \in DOMAIN r /\ r.out_w_chunk # r.out_w THEN {"writer_sink"} ELSE {})
+
+(***************************************************************************)
+(* Texts too large to log (tens of millions of lines): the rendering is    *)
+(* judged against the op list of the same diff.  Every hunk header parses  *)
+(* and its counts equal the marks of its body, the '-' and '+' lines add   *)
+(* up to the deleted / inserted totals of the ops, and there is output at  *)
+(* all iff some op is not an Equal.                                        *)
+(***************************************************************************)
+HugeUdiffViol(r) ==
+  IF r.panic THEN {"panic"}
+  ELSE
+  LET dels == FoldLeft(LAMBDA acc, op : acc + (IF op[1] \in {1, 3} THEN op[3] ELSE 0), 0, r.ops)
+      inss == FoldLeft(LAMBDA acc, op : acc + (IF op[1] \in {2, 3} THEN op[5] ELSE 0), 0, r.ops)
+      L == SplitLines(r.out_w)
+      step(acc, l) ==     \* acc = <<ok, minus, plus, expected old, expected new>>
+        IF ~acc[1] THEN acc
+        ELSE IF l # <<>> /\ l[1] = ATS
+             THEN LET h == ParseHeader(l) IN
+                  IF h[1] /\ acc[4] = 0 /\ acc[5] = 0 THEN <<TRUE, acc[2], acc[3], h[3], h[5]>> ELSE <<FALSE, 0, 0, 0, 0>>
+        ELSE IF l # <<>> /\ l[1] = SP THEN <<acc[4] > 0 /\ acc[5] > 0, acc[2], acc[3], acc[4] - 1, acc[5] - 1>>
+        ELSE IF l # <<>> /\ l[1] = MINUS THEN <<acc[4] > 0, acc[2] + 1, acc[3], acc[4] - 1, acc[5]>>
+        ELSE IF l # <<>> /\ l[1] = PLUS THEN <<acc[5] > 0, acc[2], acc[3] + 1, acc[4], acc[5] - 1>>
+        ELSE <<FALSE, 0, 0, 0, 0>>
+      res == FoldLeft(step, <<TRUE, 0, 0, 0, 0>>, L)
+  IN IF res[1] /\ res[4] = 0 /\ res[5] = 0 /\ res[2] = dels /\ res[3] = inss
+        /\ ((dels + inss = 0) <=> (r.out_w = <<>>))
+     THEN {} ELSE {"patch_huge"}
 =============================================================================
